@@ -113,10 +113,91 @@ def s13_histories(ctx):
     return res
 
 
-STREAMS = [s13_histories]
+def s13_generated(ctx):
+    """translator validation: the REGENERATED row / validator loops of run_validation with the regenerated _validate inside (compiled into
+    gen_c13, run twice like the two passes) vs the real run_validation with scripted validator classes"""
+    import_fractopo()
+    import geopandas as gpd
+    from shapely.geometry import LineString, MultiLineString, Point, box
+
+    from fractopo.tval.trace_validation import Validation
+    from fractopo.tval.trace_validators import MAJOR_ERRORS
+    from harness.common import dec, enc, parse_resp, rng_for
+
+    res = StreamResult("S13-generated", rule="regenerated loops of run_validation + regenerated _validate (Lean, compiled; both passes) vs the real run_validation with 1..4 scripted "
+                       "validator classes (LINESTRING_ONLY or not, major / minor / repeated ERROR strings, rejecting chosen geometry kinds, fix returning a new line / None / "
+                       "raising NotImplementedError) on frames of 1..6 rows of lines, empty lines, multi-lines and points, allow_fix on / off; geometry and error tuple per row "
+                       "compared; non-trivial = some row ends with an error or a fixed geometry")
+    if ctx.gen is None:
+        res.note = "gen_c13 not built (a generated module is broken): skipped"
+        res.skipped["generated_driver_not_built"] = 1
+        return res
+    rng = rng_for(ctx.seed, "S13g")
+    geoms = {0: LineString([(0, 0), (1, 1)]), 1: LineString(), 2: MultiLineString([[(0, 0), (1, 1)], [(3, 3), (4, 5)]]), 3: Point(1, 1), 9: LineString([(0, 0), (2, 2)])}
+
+    def code(g):
+        for k, v in geoms.items():
+            if type(g) is type(v) and g.is_empty == v.is_empty and (g.is_empty or g.equals(v)):
+                return k
+        raise AssertionError(g.wkt)
+
+    errors_pool = ["GEOM TYPE MULTILINESTRING", "CUTS ITSELF", "NULL GEOMETRY", "V NODE", "SHARP TURNS", "STACKED TRACES"]
+    cases, reqs = [], []
+    for _ in range(budget(ctx.tier, 250, 5000)):
+        rows = [rng.choice([0, 0, 0, 1, 2, 2, 3]) for _ in range(rng.randint(1, 6))]
+        allow_fix = rng.random() < 0.6
+        vals = []
+        for _ in range(rng.randint(1, 4)):
+            fails = sorted(set(rng.sample([0, 1, 2, 3, 9], rng.randint(0, 3))))
+            fx = rng.choice(["new", "none", "raise"])
+            if fx == "new":
+                # no fixer turns an EMPTY geometry into a line (the row is not in the spatial index: the candidate search of the real code
+                # would fail on its own index): a fixing validator does not reject empty lines
+                fails = [c for c in fails if c != 1]
+            vals.append((rng.random() < 0.5, rng.choice(errors_pool), fails, fx))
+        cases.append((rows, allow_fix, vals))
+        vs = "|".join(f"{int(lo)}:{enc(e)}:{'.'.join(map(str, f)) if f else '-'}:{'9' if fx == 'new' else '-'}" for lo, e, f, fx in vals)
+        reqs.append(f"vpass geoms={','.join(map(str, rows))} allowfix={int(allow_fix)} major={';'.join(enc(e) for e in MAJOR_ERRORS)} vals={vs}")
+    resps = ctx.gen.parallel(reqs)
+    area = gpd.GeoDataFrame(geometry=[box(-10, -10, 10, 10)])
+    for (rows, allow_fix, vals), req, resp in zip(cases, reqs, resps):
+        res.evaluations += 1
+        classes = []
+        for lo, e, f, fx in vals:
+            def vm(geom, _f=f, **_):
+                return code(geom) not in _f
+
+            def fm(geom, _fx=fx, **_):
+                if _fx == "raise":
+                    raise NotImplementedError
+                return geoms[9] if _fx == "new" else None
+
+            classes.append(type("V", (), {"LINESTRING_ONLY": lo, "ERROR": e, "validation_method": staticmethod(vm), "fix_method": staticmethod(fm)}))
+        frame = gpd.GeoDataFrame({"uid": list(range(len(rows)))}, geometry=[geoms[r] for r in rows])
+        try:
+            out = Validation(frame, area, "g", allow_fix).run_validation(choose_validators=tuple(classes))
+            want = ([code(g) for g in out.geometry.values], [list(e) for e in out["VALIDATION_ERRORS"]])
+        except Exception as ex:  # noqa: BLE001
+            want = f"{type(ex).__name__}: {str(ex)[:100]}"
+        r = parse_resp(resp)
+        es = r.get("errs", "")
+        got = ([int(x) for x in r["geoms"].split(",")], [[dec(x) for x in t.split(";") if x] for t in es.split("|")] if len(rows) > 0 else [])
+        if isinstance(want, tuple) and (any(want[1]) or want[0] != rows):
+            res.nontrivial += 1
+        if got != want:
+            res.disagreements.append(Disagreement("S13-generated", {"stream": "S13-generated", "request": req}, got, want, None,
+                                                  "regenerated validation pass (Lean) and the real run_validation disagree"))
+    res.samples = [{"request": reqs[0][:200], "response": resps[0][:200]}]
+    return res
+
+
+STREAMS = [s13_histories, s13_generated]
 
 
 def replay(ctx, stream, case):
+    if stream == "S13-generated":
+        r = s13_generated(ctx)
+        return r.disagreements[0] if r.disagreements else None
     ctxm = mp.get_context("fork")
     h = [tuple(o) for o in case["history"]]
     with ctxm.Pool(1, maxtasksperchild=1) as pool:
